@@ -581,6 +581,10 @@ func managerPhase(c *ev.Ctx) {
 		for _, init := range []string{"generated", "A"} {
 			n := runF(path, 0, init)
 			// every raft apply of the last operation fails in turn
+			// (quick tier: only below one first operation, which still varies the two operations before the failure)
+			if c.Quick() && len(path) > 0 && path[0] != 0 {
+				continue
+			}
 			for k := 1; k <= n && len(path) > 0; k++ {
 				faultRuns++
 				runF(path, k, init)
